@@ -135,7 +135,98 @@ func TestC16(t *testing.T) {
 		cases = sub
 	}
 	const rd = 10 * time.Second
-	r.Each(t, len(cases), 0, nil, func(t *testing.T, c *rt.Case) {
+	// ---- second front: two broker messages for the same new topic, the second one arriving while the
+	// registration of the first is still being retried (its REGISTER or REGACK was lost)
+	type cs2 struct {
+		q1, q2 byte
+		gap    time.Duration
+		fs     []fault
+	}
+	var cases2 []cs2
+	for _, q1 := range []byte{1, 2} {
+		for _, q2 := range []byte{0, 1, 2} {
+			for _, gap := range []time.Duration{0, time.Second, 9 * time.Second, 11 * time.Second} {
+				for _, fs := range [][]fault{nil, {{world.SNOut, snref.REGISTER, 0, memnet.Drop}}, {{world.SNIn, snref.REGACK, 0, memnet.Drop}},
+					{{world.SNOut, snref.REGISTER, 0, memnet.Drop}, {world.SNOut, snref.REGISTER, 1, memnet.Drop}}, {{world.SNOut, snref.REGISTER, 0, memnet.Dup}}} {
+					cases2 = append(cases2, cs2{q1, q2, gap, fs})
+				}
+			}
+		}
+	}
+	n1 := len(cases)
+	r.Each(t, n1+len(cases2), 0, nil, func(t *testing.T, c *rt.Case) {
+		if c.I >= n1 {
+			k := cases2[c.I-n1]
+			c.Desc = fmt.Sprintf("two messages on one new topic: QoS %d, then QoS %d %v later; faults=%v (RetryCount 3)", k.q1, k.q2, k.gap, k.fs)
+			pl1, pl2 := []byte(fmt.Sprintf("c16-%d-first", c.I)), []byte(fmt.Sprintf("c16-%d-second", c.I))
+			var evs []world.Ev
+			setup := ""
+			var cbs1, cbs2 int
+			var clientDown bool
+			bubble(t, func() {
+				f := newFullWorld(world.GWConfig{RetryDelay: rd, RetryCount: 3}, world.BrokerCfg{FirstID: 1}, c16ClientCfg())
+				if err := f.Cl.Connect(); err != nil {
+					setup = "connect: " + err.Error()
+				} else if err := f.Cl.Subscribe("t/#", 2, cbRecorder(f.W.Tr, 0, "t/#")); err != nil {
+					setup = "subscribe: " + err.Error()
+				}
+				synctest.Wait()
+				if setup == "" {
+					f.W.Tr.Add(0, world.Note, nil, "faults armed")
+					f.S.SetPlan(planOf(k.fs))
+					f.B.Publish(f.S, "t/new", k.q1, false, pl1)
+					if k.gap > 0 {
+						time.Sleep(k.gap)
+					}
+					f.B.Publish(f.S, "t/new", k.q2, false, pl2)
+					time.Sleep(12 * rd)
+					synctest.Wait()
+					f.S.SetPlan(nil)
+					// the client must still be usable
+					if err := f.Cl.Ping(); err != nil {
+						clientDown = true
+					}
+					synctest.Wait()
+				}
+				evs = f.Close()
+			})
+			if setup != "" {
+				c.Inconclusive("setup failed: " + setup)
+				return
+			}
+			ended := false
+			for _, e := range evs {
+				if e.Kind == world.Note && e.Note == "teardown" {
+					break
+				}
+				switch e.Kind {
+				case world.End:
+					ended = true
+				case world.CB:
+					if bytes.Equal(e.B, pl1) {
+						cbs1++
+					}
+					if bytes.Equal(e.B, pl2) {
+						cbs2++
+					}
+				}
+			}
+			witness := map[string]interface{}{"case": c.Desc, "trace": world.Strings(evs, 90)}
+			if ended || clientDown {
+				c.Violation(fmt.Sprintf("two-messages|session-or-client-down|q%d-q%d", k.q1, k.q2), fmt.Sprintf("%s: gateway session ended=%v, client unusable afterwards=%v", c.Desc, ended, clientDown), witness)
+			}
+			// every plan here is within the budget of RetryCount 3
+			if cbs1 < 1 || (k.q1 == 2 && cbs1 != 1) {
+				c.Violation(fmt.Sprintf("two-messages|first-handler-count|q%d-q%d|%s", k.q1, k.q2, faultShape(k.fs)), fmt.Sprintf("%s: the handler ran %d times for the first message", c.Desc, cbs1), witness)
+			}
+			if (k.q2 > 0 && cbs2 < 1) || (k.q2 == 2 && cbs2 != 1) {
+				c.Violation(fmt.Sprintf("two-messages|second-handler-count|q%d-q%d|%s", k.q1, k.q2, faultShape(k.fs)), fmt.Sprintf("%s: the handler ran %d times for the second message", c.Desc, cbs2), witness)
+			}
+			r.Observe("two-message outcome", fmt.Sprintf("q%d then q%d gap %v %s: handler runs %d / %d", k.q1, k.q2, k.gap, faultShape(k.fs), cbs1, cbs2))
+			r.Count("handler_runs", cbs1+cbs2)
+			c.Key("two|%d|%d|%v|%v", k.q1, k.q2, k.gap, k.fs)
+			return
+		}
 		cse := cases[c.I]
 		fl := flows[cse.flow]
 		c.Desc = fmt.Sprintf("%s rc=%d faults=%v", fl.name, cse.rc, cse.fs)
@@ -303,7 +394,7 @@ func TestC16(t *testing.T) {
 			r.Sample(map[string]interface{}{"flow": fl.name, "retry_count": cse.rc, "faults": fmt.Sprint(cse.fs), "reference_failing_phase": failPhase, "handler_runs": cbs, "trace": world.Strings(evs, 40)})
 		}
 	})
-	r.Finish("real client library + real gateway session + simulated broker in one virtual-time world; lossy/duplicating in-memory datagram link between client and gateway. Flows: broker PUBLISH QoS 1 and 2 on a topic the client knows (SUBACK ID), on a new topic under a wildcard subscription (REGISTER step), on a short topic. RetryDelay 10 s, RetryCount 1,2 (thorough also 0 and 4). Fault plans per flow: none; drop of the n-th occurrence (n <= RetryCount+1) of every datagram type of the flow in either direction; duplication of the 1st/2nd occurrence; all pairs of those (quick: a quarter); runs of 1..RetryCount+1 consecutive losses of each type. Reference simulation decides whether a plan stays within the retry budget of every step. Oracle within budget: handler ran (QoS 1: >= 1, QoS 2: exactly 1) with the broker's topic and payload, the broker got exactly one PUBACK / one PUBREC and one PUBCOMP (after its PUBREL), the session stayed up. Over budget: the unanswered step was transmitted exactly RetryCount+1 times and nothing of later steps was sent. Always: retransmissions repeat message ID, topic ID and payload, PUBLISH retransmissions carry DUP, consecutive transmissions are exactly RetryDelay apart, at most RetryCount+1 transmissions, QoS 2 handler never runs twice.", nil)
+	r.Finish("real client library + real gateway session + simulated broker in one virtual-time world; lossy/duplicating in-memory datagram link between client and gateway. Flows: broker PUBLISH QoS 1 and 2 on a topic the client knows (SUBACK ID), on a new topic under a wildcard subscription (REGISTER step), on a short topic. RetryDelay 10 s, RetryCount 1,2 (thorough also 0 and 4). Fault plans per flow: none; drop of the n-th occurrence (n <= RetryCount+1) of every datagram type of the flow in either direction; duplication of the 1st/2nd occurrence; all pairs of those (quick: a quarter); runs of 1..RetryCount+1 consecutive losses of each type. Reference simulation decides whether a plan stays within the retry budget of every step. Oracle within budget: handler ran (QoS 1: >= 1, QoS 2: exactly 1) with the broker's topic and payload, the broker got exactly one PUBACK / one PUBREC and one PUBCOMP (after its PUBREL), the session stayed up. Over budget: the unanswered step was transmitted exactly RetryCount+1 times and nothing of later steps was sent. Always: retransmissions repeat message ID, topic ID and payload, PUBLISH retransmissions carry DUP, consecutive transmissions are exactly RetryDelay apart, at most RetryCount+1 transmissions, QoS 2 handler never runs twice. Second front: two broker messages (QoS 1/2, then QoS 0/1/2) on one new topic 0 / 1 s / 9 s / 11 s apart while the first one's REGISTER or REGACK is lost (or duplicated), RetryCount 3: both reach the handler (QoS 2 exactly once; a QoS 0 second message may be lost), the session and the client stay up.", nil)
 }
 
 // c16ClientCfg: the gateway refuses keep-alive 0, so keep-alive is on but longer than any history here.
